@@ -11,6 +11,9 @@ def cfgs(system, tier, weakly=False):
         out += [dict(system=system, N=2, M=M, pm="rc2", weakly=weakly) for M in (1, 2, 3)]
         out += [dict(system=system, N=3, M=M, pm="z3", weakly=weakly) for M in (1, 2, 3)]
         out += [dict(system=system, N=3, M=3, pm="rc2", weakly=weakly, level="L2")]
+        # slices of M=4: a three-conditional layer above / below a one-conditional layer
+        out += [dict(system=system, N=3, M=4, pm="rc2", weakly=weakly, level="L2", layers=[0, 1, 1, 1])]
+        out += [dict(system=system, N=3, M=4, pm="z3", weakly=weakly, layers=[0, 0, 0, 1])]
         out += [dict(system=system, N=2, M=2, pm="rc2", weakly=weakly, shapes=sh) for sh in ops.const_shape_configs(weakly)[:4]]
         out += [dict(system=system, N=2, M=2, pm="rc2", weakly=weakly, shapes=sh) for sh in ops.struct_shape_configs()[:2]]
     else:
